@@ -305,7 +305,7 @@ def check_evaluators(model, counters, _nested=False):
         if m_ie is not None:
             sub_fails = check_evaluators(m_ie, counters, _nested=True)
             fails += ["with stored initial individual estimates: " + f for f in sub_fails]
-    return fails[:4]
+    return fails[:12]
 
 
 def replay(w):
